@@ -42,6 +42,42 @@ pub struct Case {
     /// user-defined roller around the real one failing on scripted calls (no bursts in such histories)
     #[serde(default)]
     pub flaky: Vec<bool>,
+    /// the appender is built by the `rolling_file` deserializer from a configuration section (library triggers and
+    /// rollers only; `append` is left out when it is the documented default `true`)
+    #[serde(default)]
+    pub via_config: bool,
+}
+
+/// What a configuration file's `kind: rolling_file` section with these settings produces.
+pub fn appender_from_config(dir: &Path, active: &Path, append_mode: bool, trigger: &TrigSpec, roller: &RollSpec) -> anyhow::Result<Box<dyn log4rs::append::Append>> {
+    use serde_value::Value as V;
+    let s = |x: &str| V::String(x.to_string());
+    let map = |kv: Vec<(&str, V)>| V::Map(kv.into_iter().map(|(k, v)| (s(k), v)).collect());
+    let trig = match trigger {
+        TrigSpec::Size(n) => map(vec![("kind", s("size")), ("limit", V::U64(*n))]),
+        TrigSpec::OnStartup(n) => map(vec![("kind", s("onstartup")), ("min_size", V::U64(*n))]),
+        TrigSpec::Time(i, m) => map(vec![("kind", s("time")), ("interval", s(i)), ("modulate", V::Bool(*m)), ("max_random_delay", V::U64(0))]),
+        TrigSpec::Scripted(..) => anyhow::bail!("user-defined trigger"),
+    };
+    let roll = match roller {
+        RollSpec::Delete => map(vec![("kind", s("delete"))]),
+        RollSpec::Fixed { base, count, pattern } => {
+            let mut kv = vec![("kind", s("fixed_window")), ("pattern", s(&format!("{}/{}", dir.display(), pattern))), ("count", V::U32(*count))];
+            if *base != 0 {
+                kv.push(("base", V::U32(*base)));
+            }
+            map(kv)
+        }
+    };
+    let mut policy = vec![("trigger", trig), ("roller", roll)];
+    if !append_mode {
+        policy.push(("kind", s("compound")));
+    }
+    let mut kv = vec![("path", s(&active.display().to_string())), ("encoder", map(vec![("pattern", s("{m}"))])), ("policy", map(policy))];
+    if !append_mode {
+        kv.push(("append", V::Bool(false)));
+    }
+    log4rs::config::Deserializers::default().deserialize::<dyn log4rs::append::Append>("rolling_file", map(kv))
 }
 
 fn yes() -> bool {
@@ -97,8 +133,9 @@ pub fn strategy() -> impl Strategy<Value = Case> {
         prop::collection::vec(op, 1..=40),
         prop::bool::weighted(0.75),
         prop_oneof![4 => Just(vec![]), 1 => prop::collection::vec(prop::bool::weighted(0.4), 1..=6)],
+        prop::bool::weighted(0.3),
     )
-        .prop_map(|(trigger, roller, chunks, mut ops, append_mode, flaky)| {
+        .prop_map(|(trigger, roller, chunks, mut ops, append_mode, flaky, via_config)| {
             if !flaky.is_empty() {
                 for o in ops.iter_mut() {
                     if let Op::Burst(plan) = o {
@@ -107,7 +144,7 @@ pub fn strategy() -> impl Strategy<Value = Case> {
                 }
             }
             let append_mode = append_mode || ops.iter().any(|o| matches!(o, Op::Restart));
-            Case { trigger, roller, chunks, ops, append_mode, flaky }
+            Case { trigger, roller, chunks, ops, append_mode, flaky, via_config }
         })
 }
 
@@ -179,11 +216,16 @@ fn check_in(dir: &Path, case: &Case, obs: &mut Obs) -> CaseResult {
     let failures = Arc::new(std::sync::atomic::AtomicUsize::new(0));
     // records whose append returned Err (scripted roller failure): they may or may not be on disk
     let mut unacked: Vec<RecId> = vec![];
-    let build = || -> Result<Arc<RollingFileAppender>, Failure> {
+    let via_config = case.via_config && case.chunks.is_none() && case.flaky.is_empty() && !matches!(case.trigger, TrigSpec::Scripted(..));
+    let build = || -> Result<Arc<dyn log4rs::append::Append>, Failure> {
+        if via_config {
+            return Ok(Arc::from(appender_from_config(dir, &active, case.append_mode, &case.trigger, &case.roller).map_err(|e| Failure { sig: "C05:build".into(), msg: e.to_string() })?));
+        }
         let policy = make_flaky_policy(dir, &case.trigger, &case.roller, &case.flaky, &failures).map_err(|e| Failure { sig: "C05:build".into(), msg: e.to_string() })?;
         // restarts on the same path are in the statement's scope in append mode only
         Ok(Arc::new(build_appender(&active, case.append_mode, &case.chunks, policy).map_err(|e| Failure { sig: "C05:build".into(), msg: e.to_string() })?))
     };
+    obs.class_if(via_config, "appender-built-by-the-rolling_file-deserializer");
     let mut app = build()?;
     let mut now = T0;
     // reference stream: acknowledged records in write order (re-based on the observed order after a burst)
